@@ -27,6 +27,14 @@ PROPS["C02"] = dict(
         "Zrnt.Proofs.C02.registry_updates_eq",
         "Zrnt.Proofs.C02.deneb_activation_limit_eq",
         "Zrnt.Proofs.C02.flat_snapshot_sound",
+        "Zrnt.Proofs.C02.flagDeltas_altair_eq",
+        "Zrnt.Proofs.C02.inactivityPenalty_eq",
+        "Zrnt.Proofs.C02.inactivity_eq",
+        "Zrnt.Proofs.C02.rewards_altair_eq",
+        "Zrnt.Proofs.C02.currentTargetStake_eq",
+        "Zrnt.Proofs.C02.resets_eq",
+        "Zrnt.Proofs.C02.historical_eq",
+        "Zrnt.Proofs.C02.participation_rotation_eq",
         "Zrnt.Proofs.C02.effectiveBalance_snapshot_eq",
     ],
     modes=[dict(name="c02", nontrivial=_nontrivial)],
